@@ -200,6 +200,40 @@ def u_frozen(ip):
     c.oblige("every_structural_store_is_guarded", unguarded == [], witness=str(unguarded))
 
 
+@unit("C15.frozen_against_foreign_variables", "C15", [f"{N}::Var.__init__", f"{N}::Var.value_node.fset", f"{N}::Var.dist_node.fset", f"{N}::Node._set_var", f"{N}::Dist._set_var"],
+      assumptions=["graph: a bare Value node and a stand-alone distribution node (no variable owns them) inside a model, plus a variable-owned node"])
+def u_frozen_foreign(ip):
+    """a node that belongs to a model cannot be taken over from OUTSIDE either: handing it to another, model-free variable - as its value
+    node or distribution node, through the setters or the Var constructor - raises RuntimeError and leaves the node (its fields, in
+    particular its owner link) unchanged."""
+    c = ip.ctx
+    install_graph_models(ip)
+    g = G(ip)
+    bare = ip.call(g.Value, [g.val("z")], {"_name": "z"})
+    bare_dist = g.dist("Dbare", bare)
+    ip.setattr(bare_dist, "at", bare)
+    owned = g.var("owned")
+    top = g.calc("f_top", bare, owned, name="top")
+    model = g.build(top, bare_dist)
+    frozen = {"bare_value_node": model.f["_nodes"]["z"], "bare_dist_node": bare_dist, "owned_value_node": model.f["_vars"]["owned"].f["_value_node"]}
+    for tag, node in frozen.items():
+        before = dict(node.f)
+        attempts = []
+        if node.clsname != "Dist":
+            free = g.var(f"thief_{tag}")
+            attempts.append(("value_node_setter", lambda: ip.setattr(free, "value_node", node)))
+            attempts.append(("Var_constructor", lambda: ip.call(g.Var, [node], {"name": f"thief2_{tag}"})))
+        else:
+            free = g.var(f"thief_{tag}")
+            attempts.append(("dist_node_setter", lambda: ip.setattr(free, "dist_node", node)))
+            attempts.append(("Var_constructor", lambda: ip.call(g.Var, [g.val("v")], {"distribution": node, "name": f"thief2_{tag}"})))
+        for aname, act in attempts:
+            kind, r = try_call(ip, PyFn(lambda ip_, act=act: act(), "attempt"), [])
+            c.oblige(f"{tag}.{aname}.rejected", kind == "raise" and r.cls == "RuntimeError")
+            c.oblige(f"{tag}.{aname}.node_unchanged", set(node.f) == set(before) and all(node.f[k] is before[k] for k in before), changed=str([k for k in before if node.f.get(k) is not before[k]]))
+            c.oblige(f"{tag}.{aname}.still_owned_by_the_model", ip.getattr(node, "model") is model)
+
+
 def rebuild_and_compare(ip, c, tag, model, rebuilt, g):
     c.oblige(f"{tag}.same_state", observe(ip, rebuilt) == observe(ip, model) if model is not None else True)
 
